@@ -369,12 +369,61 @@ func policyEdge(b *ssa.BasicBlock) int {
 	return 0
 }
 
+// c19R7: environments rebuilt from another one copy the redaction policy.
+func c19R7(p *core.Program, r *core.Report) {
+	nBuilders, nCopies := 0, 0
+	for _, fn := range p.ModuleFunctions() {
+		if p.IsTestFile(fn.Pos()) || fn.Synthetic != "" || core.RelPkg(core.FuncPkgPath(fn)) == "envs" {
+			continue
+		}
+		usesBuilder := false
+		copied := map[string]bool{} // With… setter -> fed from an Environment getter
+		for _, cs := range core.Calls(fn, false) {
+			o := core.CalleeObj(cs.Common())
+			if o == nil || o.Pkg() == nil || !strings.HasSuffix(o.Pkg().Path(), "/envs") {
+				continue
+			}
+			if o.Name() == "NewBuilder" {
+				usesBuilder = true
+			}
+			if !strings.HasPrefix(o.Name(), "With") {
+				continue
+			}
+			for _, a := range cs.Common().Args[1:] {
+				for v := range core.BackSlice(a, func(*ssa.Call) bool { return true }) {
+					if c, ok := v.(*ssa.Call); ok && c.Call.IsInvoke() && strings.HasSuffix(core.ShortType(c.Call.Value.Type()), "Environment") {
+						copied[o.Name()] = true
+					}
+				}
+			}
+		}
+		if !usesBuilder {
+			continue
+		}
+		nBuilders++
+		if len(copied) < 2 {
+			continue
+		}
+		nCopies++
+		r.Check(copied["WithRedactionPolicy"], "R7", core.FuncName(fn)+"/environment-copy-keeps-redaction-policy", p.Pos(fn.Pos()), "the policy is copied with the other settings",
+			core.FuncName(fn)+" rebuilds an environment from an existing one ("+strings.Join(core.SortedKeys(copied), ", ")+") without its redaction policy: the copy does not redact, and URN conditions or URN text handled in it are visible again")
+	}
+	if nCopies == 0 {
+		r.OK("R7", "no-environment-copy-without-policy", "", fmt.Sprintf("%d functions outside envs use the environment builder; none rebuilds an environment from the getters of another", nBuilders))
+	}
+	r.Count("environment_builders_outside_envs", nBuilders)
+	r.Count("environment_copies", nCopies)
+	r.Require("environment_builders_outside_envs", nBuilders, 1)
+}
+
 func checkC19(p *core.Program, r *core.Report) {
 	r.Rule("R1", "single conversion point: in the module's non-test code a value carrying the identifying part of a URN (urns.URN values, results of the urns API other than the scheme, ContactURN.URN()/String()) reaches an X-value constructor only inside ContactURN.ToXValue through withoutQuery(redact); withoutQuery returns nothing derived from path/display/query unless on the redact==false edge; redact is RedactionPolicy()==urns; Contact.Format returns URN-derived text only on the non-redacting edge")
 	r.Rule("R2", "queries: every construction of a URN-typed condition (and of a condition on the urn attribute) in the query visitor/parser is guarded by a RedactionPolicy test (rejecting, or on the non-redacting edge)")
 	r.Rule("R3", "positive direction: on the non-redacting edge withoutQuery passes scheme, path and display to urns.NewFromParts (only the query is dropped)")
 	r.Rule("R4", "the policy in force is the session's current one: session.MergedEnvironment (the environment every template is evaluated under) returns a wrapper built by flows.NewSessionEnvironment on that call; if it returns a value kept in a session field instead, every function that writes session.env also writes that field")
 	c19R4(p, r)
+	r.Rule("R7", "a copy of an environment keeps its redaction policy: wherever module code builds an environment with envs.NewBuilder and feeds at least two of its With… setters from getters of an existing Environment (a modified copy), WithRedactionPolicy is fed from that environment too — a rebuilt environment without it falls back to policy `none`, and whatever is parsed or evaluated in it (the queries of the smart groups) sees the URNs")
+	c19R7(p, r)
 	r.Rule("R6", "no decision is taken on the hidden part: in the methods of Contact, URNList and ContactURN (package flows) — which choose the URNs, the preferred URN and channel and the destinations the context then shows — no branch condition is computed from the identifying part of a URN (a result of the urns API other than the scheme, ContactURN.URN()/String()), unless the branch lies on the non-redacting edge of the policy test or is listed: which masked value is shown must not tell what the mask hides")
 	c19R6(p, r)
 	r.Rule("R5", "a changed policy is a changed environment: environment.Equal, which decides whether a resume's environment replaces the session's, compares the marshalled form of both or reads the redaction policy of both")
